@@ -65,4 +65,12 @@ pub trait StrictOps {
     fn arrow_new<O: Lab, A: Lab>(g: &POpen<O, A>, h: &POpen<O, A>, w: (&[usize], usize), x: (&[usize], usize)) -> Res<Result<(), String>>;
     /// (is_monomorphism, is_convex_subgraph) of an arrow built without validation
     fn arrow_mono_convex<O: Lab, A: Lab>(g: &POpen<O, A>, h: &POpen<O, A>, w: (&[usize], usize), x: (&[usize], usize)) -> Res<(bool, bool)>;
+
+    // ---- functors ----------------------------------------------------------------------------
+    fn functor_apply(f: &POpen<u8, u8>, tf: crate::tf::TF) -> Res<POpen<u8, u8>>;
+    fn identity_functor(f: &POpen<u8, u8>) -> Res<POpen<u8, u8>>;
+
+    // ---- optics ------------------------------------------------------------------------------
+    /// (optic image, adapted optic image) of `f` under the strict Optic built from the plain optic
+    fn optic_apply(f: &POpen<u8, u8>, o: std::sync::Arc<dyn crate::tf::PlainOptic>) -> Res<(POpen<u8, u8>, POpen<u8, u8>)>;
 }
